@@ -118,18 +118,27 @@ def call_result(ctx, cname, rid):
                 t = U(strip_await(a))
                 raw = atom
 
+                def is_collector(x):
+                    d = run.sym_of(x)
+                    return bool(d and isinstance(d['expr'], ast.List) and
+                                not d['expr'].elts)
+
+                def first_of_collector(x):
+                    if isinstance(x, ast.Subscript) and \
+                            is_const(x.slice, 0) and is_collector(x.value):
+                        return True
+                    d = run.sym_of(x)
+                    return bool(d and d['expr'] is not None and
+                                first_of_collector(d['expr']))
+
                 def val(node):
                     if isinstance(node, ast.Constant) and \
                             isinstance(node.value, int):
                         return node.value
                     if isinstance(node, ast.Call) and \
                             U(node.func) == 'len' and \
-                            isinstance(node.args[0], ast.Subscript) and \
-                            is_const(node.args[0].slice, 0):
-                        d = run.sym_of(node.args[0].value)
-                        if d and isinstance(d['expr'], ast.List) and \
-                                not d['expr'].elts:
-                            return n
+                            first_of_collector(node.args[0]):
+                        return n
                     return None
                 if isinstance(raw, ast.Compare):
                     r = eval_cmp(raw, val)
@@ -149,7 +158,7 @@ def call_result(ctx, cname, rid):
                 if e.callee() == 'wait_for':
                     return {'TimeoutError'} if not waited else None
                 return None
-            run = Run(f.node, oracle=oracle, raiser=raiser)
+            run = run_function(f, ctx.model, oracle=oracle, raiser=raiser)
             paths = run.paths
             if f.is_async:
                 # wait_for either times out (raiser) or completes
@@ -168,7 +177,10 @@ def call_result(ctx, cname, rid):
                           key='timeout', reason='on wait failure: exit %s %s'
                           % (p.exit, txt(p.value)), where=w, rid=rid)
                 continue
-            v = run.pretty(p.value) if p.exit == 'return' else p.exit
+            keep = lambda d: isinstance(d['expr'], ast.List) and \
+                not d['expr'].elts
+            v = run.pretty(run.expand(p.value, keep=keep)) \
+                if p.exit == 'return' else p.exit
             coll = [k for k, d in run.symdefs.items()
                     if isinstance(d['expr'], ast.List) and
                     not d['expr'].elts and d['kind'] == 'assign']
